@@ -256,6 +256,8 @@ def main(argv=None):
                           discharged=len(r.real) - len(r.undischarged()), vacuity_probes=len(r.probes),
                           syntactic_frames=r.trivial_frames,
                           undischarged=[o.name for o in r.undischarged()][:20]))
+    slow = sorted(((r.results[o.name].get("time", 0), o.name, r.results[o.name].get("backend")) for r in reports for o in r.real
+                   if r.results.get(o.name, {}).get("time", 0) > 2.0 or r.results.get(o.name, {}).get("backend") != "z3"), reverse=True)[:12]
     samples = [o.name for r in reports for o in r.real][:6]
     cov = dict(
         obligations=n_obl, discharged=n_dis,
@@ -266,6 +268,7 @@ def main(argv=None):
         explanation=getattr(cfg, "EXPLANATION", ""),
         proof_incomplete=[o.name for (_, o, _) in undecided], proof_refuted=[o.name for (_, o, _) in refuted + failed],
         proof_stale=[r.contract.qualname for r in stale],
+        slow_obligations=[dict(seconds=t, obligation=nm, backend=b) for t, nm, b in slow],
     )
     if rac:
         cov.update(evaluations=rac["evaluations"], distinct_nontrivial=rac["distinct_nontrivial"],
